@@ -13,6 +13,8 @@
       spyne/protocol/xml.py:XmlDocument.__validate_lxml          (V_* points)
       spyne/protocol/_base.py:ProtocolBase.get_cls_attrs         (G_* points)
       spyne/util/memo.py:memoize.__call__                        (M_* points)
+      spyne/protocol/_base.py:ProtocolBase.sort_fields           (S_* points; the same lock-free
+                                     check-then-set shape as spyne/util/cdict.py:cdict.__getitem__)
 
     Two variants of the program text are modelled side by side:
       [Pinned]   the code as found in the snapshot,
@@ -33,7 +35,8 @@ Inductive req :=
 | RValidate (ok : bool) (e : Z)          (* schema-validate a payload; [e] names the error text libxml
                                             produces for THIS payload when it is invalid *)
 | RAttrs (ks : list Z)                   (* look up and use the protocol attributes of classes ks, in order *)
-| RMemo (ks : list Z).                   (* call a @memoize'd function on keys ks, in order *)
+| RMemo (ks : list Z)                    (* call a @memoize'd function on keys ks, in order *)
+| RSort (ks : list Z).                   (* prot.sort_fields(cls) for classes ks, in order *)
 
 (** Program points: the NEXT shared access the thread will perform. *)
 Inductive pc :=
@@ -72,6 +75,9 @@ Inductive pc :=
 | M_relv      (*             return value      (leaving the with block releases the lock) *)
 | M_rel       (*     (entry was present at the second check) leaving the with block releases the lock *)
 | M_get       (* return self.memo.get(key)                                read memo *)
+(* sort_fields (no lock at all: a check-then-set of a value computed from frozen data) *)
+| S_get       (* retval = self._sortcache.get(cls, None); if retval is not None: return retval   read cache *)
+| S_set       (* items = ...; items.sort(...); self._sortcache[cls] = items; return items        write cache *)
 | Done.
 
 Section Model.
@@ -83,6 +89,8 @@ Variable base : Z -> V.            (* DefaultAttrDict built from cls.Attributes 
 Variable over1 over2 : Z -> V -> V.  (* .update(prot_attrs[protocol class]) / .update(prot_attrs[protocol instance]) *)
 Variable has_prot : Z -> bool.     (* bool(cls.Attributes.prot_attrs) *)
 Variable mf : Z -> V.              (* the (pure) function wrapped by @memoize *)
+Variable sf : Z -> V.              (* the sorted field list of a class: computed from cls.get_flat_type_info and
+                                      the COMPLETE attributes of the field types (get_cls_attrs(v).order) *)
 
 Definition full (k : Z) : V :=
   if has_prot k then over2 k (over1 k (base k)) else base k.
@@ -123,6 +131,7 @@ Record state := {
   vlock : option Z;         (* repaired only: the validation lock *)
   memo : Z -> option V;     (* memoize.memo *)
   mlock : option Z;         (* memoize.lock *)
+  scache : Z -> option V;   (* _sortcache (and every other lock-free fill of a pure value) *)
   thr : Z -> tstate
 }.
 
@@ -160,48 +169,52 @@ Definition consume (th : tstate) (again : pc) (v : V) : tstate :=
 Definition with_thr (s : state) (t : Z) (th : tstate) : state :=
   {| app_wsdl := app_wsdl s; b_wsdl := b_wsdl s; b_gen := b_gen s; wlock := wlock s;
      cache := cache s; heap := heap s; next := next s; errlog := errlog s; vlock := vlock s;
-     memo := memo s; mlock := mlock s; thr := upd (thr s) t th |}.
+     memo := memo s; mlock := mlock s; scache := scache s; thr := upd (thr s) t th |}.
 Definition with_app (s : state) (v : option Z) : state :=
   {| app_wsdl := v; b_wsdl := b_wsdl s; b_gen := b_gen s; wlock := wlock s;
      cache := cache s; heap := heap s; next := next s; errlog := errlog s; vlock := vlock s;
-     memo := memo s; mlock := mlock s; thr := thr s |}.
+     memo := memo s; mlock := mlock s; scache := scache s; thr := thr s |}.
 Definition with_b (s : state) (v : option Z) : state :=
   {| app_wsdl := app_wsdl s; b_wsdl := v; b_gen := b_gen s; wlock := wlock s;
      cache := cache s; heap := heap s; next := next s; errlog := errlog s; vlock := vlock s;
-     memo := memo s; mlock := mlock s; thr := thr s |}.
+     memo := memo s; mlock := mlock s; scache := scache s; thr := thr s |}.
 Definition with_gen (s : state) (g : Z) : state :=
   {| app_wsdl := app_wsdl s; b_wsdl := b_wsdl s; b_gen := g; wlock := wlock s;
      cache := cache s; heap := heap s; next := next s; errlog := errlog s; vlock := vlock s;
-     memo := memo s; mlock := mlock s; thr := thr s |}.
+     memo := memo s; mlock := mlock s; scache := scache s; thr := thr s |}.
 Definition with_wlock (s : state) (l : option Z) : state :=
   {| app_wsdl := app_wsdl s; b_wsdl := b_wsdl s; b_gen := b_gen s; wlock := l;
      cache := cache s; heap := heap s; next := next s; errlog := errlog s; vlock := vlock s;
-     memo := memo s; mlock := mlock s; thr := thr s |}.
+     memo := memo s; mlock := mlock s; scache := scache s; thr := thr s |}.
 (** allocate a new dictionary with content [v] and publish it under key [k] *)
 Definition with_pub (s : state) (k : Z) (v : V) : state :=
   {| app_wsdl := app_wsdl s; b_wsdl := b_wsdl s; b_gen := b_gen s; wlock := wlock s;
      cache := upd (cache s) k (Some (next s)); heap := upd (heap s) (next s) v; next := next s + 1;
-     errlog := errlog s; vlock := vlock s; memo := memo s; mlock := mlock s; thr := thr s |}.
+     errlog := errlog s; vlock := vlock s; memo := memo s; mlock := mlock s; scache := scache s; thr := thr s |}.
 Definition with_heap (s : state) (r : Z) (v : V) : state :=
   {| app_wsdl := app_wsdl s; b_wsdl := b_wsdl s; b_gen := b_gen s; wlock := wlock s;
      cache := cache s; heap := upd (heap s) r v; next := next s;
-     errlog := errlog s; vlock := vlock s; memo := memo s; mlock := mlock s; thr := thr s |}.
+     errlog := errlog s; vlock := vlock s; memo := memo s; mlock := mlock s; scache := scache s; thr := thr s |}.
 Definition with_errlog (s : state) (e : option Z) : state :=
   {| app_wsdl := app_wsdl s; b_wsdl := b_wsdl s; b_gen := b_gen s; wlock := wlock s;
      cache := cache s; heap := heap s; next := next s; errlog := e; vlock := vlock s;
-     memo := memo s; mlock := mlock s; thr := thr s |}.
+     memo := memo s; mlock := mlock s; scache := scache s; thr := thr s |}.
 Definition with_vlock (s : state) (l : option Z) : state :=
   {| app_wsdl := app_wsdl s; b_wsdl := b_wsdl s; b_gen := b_gen s; wlock := wlock s;
      cache := cache s; heap := heap s; next := next s; errlog := errlog s; vlock := l;
-     memo := memo s; mlock := mlock s; thr := thr s |}.
+     memo := memo s; mlock := mlock s; scache := scache s; thr := thr s |}.
 Definition with_memo (s : state) (k : Z) (v : V) : state :=
   {| app_wsdl := app_wsdl s; b_wsdl := b_wsdl s; b_gen := b_gen s; wlock := wlock s;
      cache := cache s; heap := heap s; next := next s; errlog := errlog s; vlock := vlock s;
-     memo := upd (memo s) k (Some v); mlock := mlock s; thr := thr s |}.
+     memo := upd (memo s) k (Some v); mlock := mlock s; scache := scache s; thr := thr s |}.
+Definition with_scache (s : state) (k : Z) (v : V) : state :=
+  {| app_wsdl := app_wsdl s; b_wsdl := b_wsdl s; b_gen := b_gen s; wlock := wlock s;
+     cache := cache s; heap := heap s; next := next s; errlog := errlog s; vlock := vlock s;
+     memo := memo s; mlock := mlock s; scache := upd (scache s) k (Some v); thr := thr s |}.
 Definition with_mlock (s : state) (l : option Z) : state :=
   {| app_wsdl := app_wsdl s; b_wsdl := b_wsdl s; b_gen := b_gen s; wlock := wlock s;
      cache := cache s; heap := heap s; next := next s; errlog := errlog s; vlock := vlock s;
-     memo := memo s; mlock := l; thr := thr s |}.
+     memo := memo s; mlock := l; scache := scache s; thr := thr s |}.
 
 Definition is_none {A} (o : option A) : bool := match o with None => true | Some _ => false end.
 
@@ -217,13 +230,15 @@ Definition tinit (v : variant) (q : req) : tstate :=
   | RAttrs ks => mk G_get ks None
   | RMemo [] => mk Done [] (Some (PVals []))
   | RMemo ks => mk M_chk1 ks None
+  | RSort [] => mk Done [] (Some (PVals []))
+  | RSort ks => mk S_get ks None
   end.
 
 Definition init (v : variant) (reqs : Z -> req) : state :=
   {| app_wsdl := None; b_wsdl := None; b_gen := 0; wlock := None;
      cache := fun _ => None; heap := fun _ => base 0; next := 0;
      errlog := None; vlock := None; memo := fun _ => None; mlock := None;
-     thr := fun t => tinit v (reqs t) |}.
+     scache := fun _ => None; thr := fun t => tinit v (reqs t) |}.
 
 Definition key_of (th : tstate) : Z := hd 0 (todo th).
 
@@ -316,6 +331,12 @@ Definition step (v : variant) (reqs : Z -> req) (s : state) (t : Z) : option sta
              | Some x => Some (with_thr s t (consume th M_chk1 x))
              | None => Some (with_thr s t (finish th (PFault None)))   (* dict.get -> None: a wrong answer *)
              end
+  (* ---- sort_fields: the list object read at the check is the one returned *)
+  | S_get => match scache s k with
+             | Some x => Some (with_thr s t (consume th S_get x))
+             | None => Some (with_thr s t (set_pc th S_set))
+             end
+  | S_set => Some (with_thr (with_scache s k (sf k)) t (consume th S_get (sf k)))
   | Done => None
   end.
 
@@ -336,6 +357,7 @@ Definition alone (q : req) : option resp :=
   | RValidate ok e => Some (if ok then PValid else PFault (Some e))
   | RAttrs ks => Some (PVals (map full ks))
   | RMemo ks => Some (PVals (map mf ks))
+  | RSort ks => Some (PVals (map sf ks))
   end.
 
 (** a thread can move *)
@@ -348,5 +370,5 @@ Arguments tpc {V}. Arguments lw {V}. Arguments gen {V}. Arguments ret {V}. Argum
 Arguments todo {V}. Arguments ref {V}. Arguments obs {V}. Arguments out {V}.
 Arguments app_wsdl {V}. Arguments b_wsdl {V}. Arguments b_gen {V}. Arguments wlock {V}.
 Arguments cache {V}. Arguments heap {V}. Arguments next {V}. Arguments errlog {V}.
-Arguments vlock {V}. Arguments memo {V}. Arguments mlock {V}. Arguments thr {V}.
+Arguments vlock {V}. Arguments memo {V}. Arguments mlock {V}. Arguments scache {V}. Arguments thr {V}.
 Arguments PWsdl {V}. Arguments PValid {V}. Arguments PFault {V}. Arguments PVals {V}.
